@@ -70,3 +70,18 @@ def f18_mdate_equals_create_date() -> bool:
 
     err = c11.run_history({"a.zo": "# T\n\n- 220615 220615#oK bar\n"}, R(1), [dt.date(2024, 3, 1), dt.date(2024, 3, 2)])
     return bool(err) and "body" in err
+
+
+def _unused_f9_deleted_page_survives() -> bool:
+    import logging
+
+    logging.disable(logging.CRITICAL)
+    from checks.zdirlab import Lab
+
+    with Lab() as lab:
+        lab.write("a.zo", "# A\n\n- 240101#AA keep\n")
+        lab.write("b.zo", "# B\n\n- 240101#BB gone\n")
+        lab.create()
+        (lab.zdir / "b.zo").unlink()
+        lab.reindex()
+        return any(d["zid"] == "240101#BB" for d in lab.index_notes())
